@@ -371,7 +371,7 @@ def markov_oracle(sr, T, sizes, step, names, data):
         acc = nt_reduce(sr, nt_mul(sr, nt_rename(acc, drop), nt_rename(f, p2drop)), list(drop.values()), {d: sizes[c] for c, d in drop.items()})
     # oracle self-check on short chains: the fully unrolled joint table with explicit python loops
     full = all(n in names for n in list(step) + list(step.values()))
-    if 2 <= T <= 3 and full and int(np.prod([sizes[c] for c in step.values()])) ** (T + 1) * int(np.prod([sizes[n] for n in names if n[0] == "b"] or [1])) <= 256:
+    if 2 <= T <= 3 and full and math.prod(int(sizes[c]) for c in step.values()) ** (T + 1) * math.prod(int(sizes[n]) for n in names if n[0] == "b") <= 256:
         facs = []
         usz = {}
         for t in range(T):
@@ -824,7 +824,7 @@ def check_einsum(case, out):
     joint = nt_joint(sr, nts)
     want = nt_reduce(sr, joint, [v for v in allv if v not in output])
     # the dumbest evaluation agrees with the broadcasting one (oracle self-check on small spaces)
-    if np.prod([sizes[v] for v in allv] or [1]) <= 64:
+    if math.prod(int(sizes[v]) for v in allv) <= 64:
         loop = nt_pointwise_loop(sr, nts, tuple(output), [v for v in allv if v not in output], sizes)
         assert compare(loop, want, sizes) is None and compare(want, loop, sizes) is None, "oracle self-check"
     eqn = ",".join(inputs) + "->" + output
@@ -961,7 +961,7 @@ def plated_oracle(sr, factors, plates, elim, scales=None):
     allsz = {}
     for names, arr in instances:
         allsz.update(zip(names, np.shape(arr)))
-    if instances and int(np.prod(list(allsz.values()) or [1])) <= 128:
+    if instances and math.prod(int(v) for v in allsz.values()) <= 128:  # python ints: no overflow
         cp = list(dict.fromkeys(copies))
         keep = tuple(n for n in allsz if n not in cp)
         loop = nt_pointwise_loop(sr, instances, keep, cp, allsz)
